@@ -60,6 +60,16 @@ func mapOrigin(v ssa.Value) *ssa.MakeMap {
 				}
 			}
 		}
+		// a map-typed field of a local struct variable, set by the one assignment that reaches here
+		if fa, ok := ld.X.(*ssa.FieldAddr); ok {
+			if a, ok := fa.X.(*ssa.Alloc); ok {
+				if sv := reachingFieldStore(a, fa.Field, ld); sv != nil {
+					if mk, ok := strip(sv).(*ssa.MakeMap); ok {
+						return mk
+					}
+				}
+			}
+		}
 	}
 	return nil
 }
